@@ -635,7 +635,7 @@ M('C14-run-outside-try', 'C14', CONN,
               repl="        finally:\n            with self.connection._write_lock:\n                self.connection.networking_thread = None\n        self.connection._handle_exit()")])
 M('C14-final-exception-lost', 'C14', CONN,
   "            try:\n                final_handler(exc, exc_info)\n            except Exception as new_exc:\n                exc, exc_info = new_exc, sys.exc_info()",
-  "            try:\n                final_handler(exc, exc_info)\n            except Exception as new_exc:\n                pass", rule='R14.3')
+  "            try:\n                final_handler(exc, exc_info)\n            except Exception as new_exc:\n                pass", rule='R14.4')
 M('C14-twin-rename-caught', 'C14', CONN, "caught = ", "was_caught = ", count=2, expect='silent',
   edits=[dict(file=CONN, find="caught = ", repl="was_caught = ", count=2),
          dict(file=CONN, find="and not caught:", repl="and not was_caught:")])
